@@ -10,6 +10,8 @@ M2 (spec->code)  : TLC generates the complete abstract case space (GrpcWireMC!Ca
                    `vdrive grpcwire` renders it into ammo files and runs every run on the real engine
                    with the providers and guns from the registered factories against a recording
                    TargetService with reflection.
+Connections       : GrpcConn.tla (warm-up / shared client pool / unreachable target / outage and recovery / late
+                   answers) + TraceGrpcConn.tla over the target's stats.Handler log (`vdrive grpcconn`).
 M1 (code->spec)  : TraceGrpcWire.tla follows every recorded line with the actions of GrpcWire
                    (a received call must Fit the current step of a gun in Shoot, one sample per step,
                    failed iff never sent, every grpc/json entry shot exactly once).
@@ -376,6 +378,152 @@ def drive(b, doc, d, name="cases"):
     return rows
 
 
+# ---------------------------------------------------------------------------------- connection / life-cycle part
+
+CONN_NEG = ["dialpershot", "poolignored", "ignorewarmfail", "dieonfailure"]
+
+
+def conn_design_jobs(thorough):
+    kw = dict(workers=2, deadlock=False, timeout=900, heap="2g")
+    return [("GrpcConnMC", "GrpcConn_exh3.cfg" if thorough else "GrpcConn_exh.cfg", dict(kw, workers=4))] + \
+           [("GrpcConnMC", "GrpcConn_neg_%s.cfg" % n, kw) for n in CONN_NEG]
+
+
+def conn_describe(run, i, inv):
+    head, row = run[0], run[min(i, len(run) - 1)]
+    ev = row.get("ev")
+    what = ev
+    if ev == "Sample":
+        what = "Sample:code=%s" % row.get("code")
+    elif ev == "RunEnd":
+        what = "RunEnd:class=%s" % row.get("class")
+    elif ev == "Recovered":
+        what = "Recovered:%s" % row.get("ok")
+    return "conn mode=%s shared=%s clients=%s inst=%s at=%s%s" % (head.get("mode"), head.get("shared"), head.get("clients"),
+                                                                  head.get("inst"), what, (" inv=" + inv) if inv else ""), row
+
+
+def conn_slow_guard(run, head):
+    """timeout runs: a FAST call is expected to be answered within the per-call timeout T; if any shot of a fast entry took
+    more than T/2 the machine is too slow to judge (exit 2), never a verdict."""
+    T = head.get("timeout") or 0
+    if not T:
+        return
+    slow = set(head.get("slow") or [])
+    begin = {}
+    for r_ in run:
+        if r_["ev"] == "ShootBegin":
+            begin[r_["gun"]] = (r_.get("ms", 0), r_.get("ammo"))
+        elif r_["ev"] == "ShootEnd" and r_["gun"] in begin:
+            t0, ammo = begin.pop(r_["gun"])
+            if ammo not in slow and r_.get("ms", 0) - t0 > T // 2:
+                raise vlib.MachineryError("conn run %s (timeout %d ms): a fast call took %d ms -- machine too slow to judge" % (
+                    head.get("run"), T, r_.get("ms", 0) - t0))
+
+
+def conn_validate(v, rows, d):
+    runs = split_runs(rows)
+    validated, states, rejected = 0, 0, 0
+    for attempt in range(10):
+        if not runs:
+            break
+        flat = [r_ for run in runs for r_ in run]
+        ok, ln, inv, st, _ = trace_check("GrpcConnTraceMC", "TraceGrpcConn.cfg", flat, d, tag="conn")
+        states += st
+        if ok:
+            validated += len(runs)
+            break
+        n = 0
+        for k, run in enumerate(runs):
+            if ln <= n + len(run):
+                i = ln - n - 1
+                sig, row = conn_describe(run, i, inv)
+                head = run[0]
+                conn_slow_guard(run, head)
+                v.violation(sig, "connection run %s (%s, shared-client=%s/%s, %s instances): line %s is not a step of GrpcConn%s: %s" % (
+                    head.get("run"), head.get("mode"), head.get("shared"), head.get("clients"), head.get("inst"), row.get("seq"),
+                    (" (invariant %s)" % inv) if inv else "", json.dumps(brief(row))[:400]),
+                    replay_obj={"kind": "grpcconn", "run": {k_: head.get(k_) for k_ in ("mode", "shared", "clients", "inst", "entries", "timeout")},
+                                "rejected": brief(row), "context": [brief(x) for x in run[max(1, i - 12):i + 1]]},
+                    replay_name="conn%s.json" % head.get("run"))
+                validated += k
+                rejected += 1
+                runs = runs[k + 1:]
+                break
+            n += len(run)
+        else:
+            raise vlib.MachineryError("failing line %s outside the connection trace" % ln)
+    return validated, states, rejected
+
+
+def _swap_conn(rows):
+    # a call of one gun arrives on the connection another gun uses
+    seen = {}
+    for r_ in rows:
+        if r_["ev"] == "Recv":
+            other = [c for c in seen.values() if c != r_["conn"]]
+            if other:
+                r_["conn"] = other[0]
+                return True
+            seen[r_["conn"]] = r_["conn"]
+    return False
+
+
+CONN_CORRUPTIONS = [
+    ("a call arrives on another gun's connection (no shared-client)",
+     lambda run: run[0].get("mode") == "conns" and not run[0].get("shared") and run[0].get("inst", 0) > 1, _swap_conn),
+    ("a call of a reachable target fails",
+     lambda run: run[0].get("mode") == "conns",
+     lambda rows: _alter_first(rows, lambda r_: r_["ev"] == "Sample", lambda r_: r_.__setitem__("code", 503))),
+    ("an instance is started although reflection failed",
+     lambda run: run[0].get("mode") == "dead",
+     lambda rows: rows.insert(2, {"ev": "Bind", "gun": 2, "inst": 0, "ok": True, "gid": 1, "seq": 0}) or True),
+    ("a call the target answers too late is reported as 200",
+     lambda run: run[0].get("mode") == "timeout",
+     lambda rows: _alter_first(rows, lambda r_: r_["ev"] == "Sample" and r_["code"] == 504, lambda r_: r_.__setitem__("code", 200))),
+    ("no successful call after the target came back",
+     lambda run: run[0].get("mode") == "updown",
+     lambda rows: _after_up_all_fail(rows)),
+]
+
+
+def _after_up_all_fail(rows):
+    up = next((i for i, r_ in enumerate(rows) if r_["ev"] == "TargetUp"), None)
+    if up is None:
+        return False
+    rows[:] = rows[:up + 1] + [r_ for r_ in rows[up + 1:] if r_["ev"] not in ("Recv", "ConnBegin", "ConnEnd")]
+    for r_ in rows[up + 1:]:
+        if r_["ev"] == "Sample":
+            r_["code"] = 503
+    return True
+
+
+def conn_part(v, b, d, thorough):
+    r = vlib.tlc("GrpcConnMC", "GrpcConn_gen.cfg", workers=1, deadlock=False, timeout=300)
+    doc = None
+    for ln in r.out.splitlines():
+        if ln.startswith('<<"VERIF", "'):
+            doc = json.loads(json.loads(ln[len('<<"VERIF", '):-2]))
+    if doc is None:
+        raise vlib.MachineryError("GrpcConnMC generated no runs\n" + r.out[-2000:])
+    runs_file = os.path.join(d, "connruns.json")
+    json.dump(doc, open(runs_file, "w"))
+    trace = os.path.join(d, "conn.ndjson")
+    wd = os.path.join(d, "conn-work")
+    os.makedirs(wd, exist_ok=True)
+    vlib.run_driver(b, ["grpcconn", "-runs", runs_file, "-dir", wd, "-out", trace], timeout=900)
+    rows = vlib.read_ndjson(trace)
+    t0 = time.time()
+    validated, states, rejected = conn_validate(v, rows, d)
+    corrupted = corruption_selftest(split_runs(rows), d, "GrpcConnTraceMC", "TraceGrpcConn.cfg", CONN_CORRUPTIONS) if rejected == 0 else 0
+    vlib.log("connection part: %d runs, %d lines, trace validation + self-test %.1fs" % (len(doc["runs"]), len(rows), time.time() - t0))
+    heads = [r_ for r_ in rows if r_["ev"] == "Run"]
+    return {"conn_runs": len(heads), "conn_runs_validated": validated, "conn_runs_rejected": rejected, "conn_trace_lines": len(rows),
+            "conn_trace_spec_states": states, "conn_corrupted_traces_rejected": corrupted,
+            "conn_modes": sorted({h["mode"] for h in heads}),
+            "conn_samples": [brief(r_) for r_ in rows if r_["ev"] in ("ConnBegin", "Recv", "TargetDown", "Recovered")][:4]}
+
+
 def run(tier, v):
     thorough = tier == "thorough"
     # 1. design level + negative controls
@@ -384,18 +532,24 @@ def run(tier, v):
             ("GrpcWireMC", "GrpcWire_neg_inplace.cfg", kw), ("GrpcWireMC", "GrpcWire_neg_abortonbad.cfg", kw),
             ("GrpcWireMC", "GrpcWire_neg_dropmd.cfg", kw)]
     more_neg = [("GrpcWireMC", "GrpcWire_neg_shareddialsreflect.cfg", kw), ("GrpcWireMC", "GrpcWire_neg_scenariodeadline.cfg", kw),
-                ("GrpcWireMC", "GrpcWire_neg_dirtyafterfail.cfg", kw), ("GrpcWireMC", "GrpcWire_neg_leakmd.cfg", kw)]
+                ("GrpcWireMC", "GrpcWire_neg_dirtyafterfail.cfg", kw), ("GrpcWireMC", "GrpcWire_neg_leakmd.cfg", kw),
+                ("GrpcWireMC", "GrpcWire_neg_keepdefaults.cfg", kw)]
     jobs += more_neg
     t0 = time.time()
     if thorough:   # files of 3 entries (2 instances) next to 3 instances (files of 2)
         jobs.append(("GrpcWireMC", "GrpcWire_exh_file3.cfg", dict(kw, workers=8, heap="8g")))
-    res = tlc_parallel(jobs)
-    vlib.log("design TLC + negative controls: %.1fs (%d states)" % (time.time() - t0, res[0].distinct))
+    cjobs = conn_design_jobs(thorough)
+    allres = tlc_parallel(jobs + cjobs)
+    res, cres = allres[:len(jobs)], allres[len(jobs):]
+    vlib.tlc_must_pass(cres[0], cjobs[0][1])
+    for j, r in zip(cjobs[1:], cres[1:]):
+        vlib.tlc_must_fail(r, j[1])
+    vlib.log("design TLC + negative controls: %.1fs (%d + %d states)" % (time.time() - t0, res[0].distinct, cres[0].distinct))
     vlib.tlc_must_pass(res[0], jobs[0][1])
-    for j, r in zip(jobs[1:8], res[1:8]):
+    for j, r in zip(jobs[1:9], res[1:9]):
         vlib.tlc_must_fail(r, j[1])
     states, trans = res[0].distinct, res[0].generated
-    for j, r in zip(jobs[8:], res[8:]):
+    for j, r in zip(jobs[9:], res[9:]):
         vlib.tlc_must_pass(r, j[1])
         states += r.distinct
         trans += r.generated
@@ -408,12 +562,16 @@ def run(tier, v):
     validated, tstates, rejected = validate(v, rows, d, doc)
     vlib.log("trace validation: %.1fs (%d lines, %d states)" % (time.time() - t0, len(rows), tstates))
     corrupted = corruption_selftest(split_runs(rows), d, "TraceGrpcWire", "TraceGrpcWire.cfg", C20_CORRUPTIONS) if rejected == 0 else 0
+    conn = conn_part(v, b, d, thorough)
+    states += cres[0].distinct
+    trans += cres[0].generated
+    validated += conn["conn_runs_validated"]
     shots = sum(1 for r_ in rows if r_["ev"] == "ShootBegin")
     recvs = sum(1 for r_ in rows if r_["ev"] == "Recv")
     shot_names = {(r_.get("ammo", "")[:1], r_.get("ammo")) for r_ in rows if r_["ev"] == "ShootBegin"}
     ents = doc["entries"]
     cov = {
-        "states": states, "transitions": trans,
+        "states": states, "transitions": trans, "conn_design_states": cres[0].distinct, "conn_negative_controls": CONN_NEG,
         "traces_validated_against_impl": validated,
         "samples": [{k: e[k] for k in ("id", "call", "fields", "md", "bad", "style", "num", "expect")} for e in ents[3::41]][:5]
                    + [brief(r_) for r_ in rows if r_["ev"] == "Recv"][5:7],
@@ -427,13 +585,16 @@ def run(tier, v):
         "abstract_entries": len(ents), "bad_entries": sum(1 for e in ents if e["bad"] != "none"),
         "runs": len(doc["runs"]), "runs_rejected": rejected,
         "calls_received": recvs, "trace_lines": len(rows), "trace_spec_states": tstates,
-        "negative_controls": ["inplace", "abortonbad", "dropmd", "shareddialsreflect", "scenariodeadline", "dirtyafterfail", "leakmd"], "corrupted_traces_rejected": corrupted, "design_configs": [jobs[0][1]] + [j[1] for j in jobs[8:]],
+        "negative_controls": ["inplace", "abortonbad", "dropmd", "shareddialsreflect", "scenariodeadline", "dirtyafterfail", "leakmd", "keepdefaults"], "corrupted_traces_rejected": corrupted, "design_configs": [jobs[0][1]] + [j[1] for j in jobs[9:]],
     }
+    cov.update(conn)
     return "model_checking", cov, [
+        "connection part (GrpcConn.tla): client identities are not observable, connections are (grpc stats.Handler of the in-process target); "
+        "after an outage every client may reconnect once; 'the target comes back' is judged by calls arriving again within 60 s",
         "exhaustive TLC bounds: files of <= 2 entries over 4 grpc/json and 3 scenario classes, <= %d instances%s" % (
             3 if thorough else 2, "; files of <= 3 entries with <= 2 instances" if thorough else ""),
-        "values are compared as (constant prefix, token) pairs split at '~' by the recording target; non-default values only "
-        "(proto3 cannot distinguish a default from an absent field)",
+        "values are compared as (constant prefix, token) pairs split at '~' by the recording target; a field written with its default value "
+        "(\"\" / 0) must arrive as absent (proto3: the message equals the payload when exactly the non-default fields arrive)",
         "'within the configured timeout' is decided as 'per call': one run with timeout 1 s and 0.6 s + 0.6 s of think time between three fast "
         "calls (every step must reach the target and be 200); if a shot of that run took longer than think time + T/2 the machine is "
         "declared too slow (exit 2). Real-time length of the timeout itself is not measured",
